@@ -210,6 +210,11 @@ class Interp:
         return self.maybe > 0 or (o is not None and self.loop_depth > o.loop_depth)
 
     # ------------------------------------------------------------------ decisions
+    def is_cache(self, o):
+        """a shared dictionary that some function writes (a cache), not a constant table"""
+        w = o.origin[1] if o.origin[0] == "shared" else ""
+        return w.startswith("module:") and w[len("module:"):] in self.prog.written_globals() or w.startswith(("default argument", "cache decorator"))
+
     def can_fork(self):
         """paths fork only outside every loop / maybe region (of any frame on the stack)"""
         return self.maybe == 0 and self.loop_depth == 0
@@ -585,7 +590,7 @@ class Interp:
                     except Exception:
                         continue
                     o = self.obj(b)
-                    if o is not None and o.kind == "dict" and o.shared():
+                    if o is not None and o.kind == "dict" and o.shared() and self.is_cache(o):
                         body_loads_shared_dict = (n, o)
                         break
         if body_loads_shared_dict is not None:
@@ -1032,7 +1037,7 @@ class Interp:
                 pass
         if isinstance(op, (ast.In, ast.NotIn)):
             ob = self.obj(b)
-            if ob is not None and ob.kind == "dict" and ob.shared() and self.can_fork():
+            if ob is not None and ob.kind == "dict" and ob.shared() and self.can_fork() and self.is_cache(ob):
                 # membership in a cache: fork into miss (explored first) and hit
                 a = self.keyval(a)
                 if any(vkey(k) == vkey(a) for (k, _v, _w) in ob.meta.get("stores", [])):
@@ -1123,6 +1128,10 @@ class Interp:
             except Exception:
                 pass
         if isinstance(base, ExtV):      # typing subscripts  List[int]
+            if base.dotted.split(".")[-1] == "Literal":
+                io = self.obj(idx)
+                items = io.items if (io is not None and io.items is not None) else [idx]
+                return Sym("literal", *items)
             return base
         return self.derive("item", base, idx)
 
